@@ -181,7 +181,7 @@ class MeanBackground(BackgroundBase):
         if self.sigma_clip is not None:
             data = self.sigma_clip(data, axis=axis, masked=False)
         elif isinstance(data, np.ma.MaskedArray):
-            data = data.filled(np.nan)
+            data = data.astype(float).filled(np.nan)
 
         # ignore RuntimeWarning where axis is all NaN
         with warnings.catch_warnings():
@@ -235,7 +235,7 @@ class MedianBackground(BackgroundBase):
             data = self.sigma_clip(data, axis=axis, masked=False)
         elif isinstance(data, np.ma.MaskedArray):
             # convert to ndarray with masked values replaced by NaN
-            data = data.filled(np.nan)
+            data = data.astype(float).filled(np.nan)
 
         # ignore RuntimeWarning where axis is all NaN
         with warnings.catch_warnings():
@@ -306,7 +306,7 @@ class ModeEstimatorBackground(BackgroundBase):
             data = self.sigma_clip(data, axis=axis, masked=False)
         elif isinstance(data, np.ma.MaskedArray):
             # convert to ndarray with masked values replaced by NaN
-            data = data.filled(np.nan)
+            data = data.astype(float).filled(np.nan)
 
         # ignore RuntimeWarning where axis is all NaN
         with warnings.catch_warnings():
@@ -412,7 +412,7 @@ class SExtractorBackground(BackgroundBase):
             data = self.sigma_clip(data, axis=axis, masked=False)
         elif isinstance(data, np.ma.MaskedArray):
             # convert to ndarray with masked values replaced by NaN
-            data = data.filled(np.nan)
+            data = data.astype(float).filled(np.nan)
 
         # ignore RuntimeWarning where axis is all NaN
         with warnings.catch_warnings():
@@ -503,7 +503,7 @@ class BiweightLocationBackground(BackgroundBase):
             data = self.sigma_clip(data, axis=axis, masked=False)
         elif isinstance(data, np.ma.MaskedArray):
             # convert to ndarray with masked values replaced by NaN
-            data = data.filled(np.nan)
+            data = data.astype(float).filled(np.nan)
 
         # ignore RuntimeWarning where axis is all NaN
         with warnings.catch_warnings():
@@ -558,7 +558,7 @@ class StdBackgroundRMS(BackgroundRMSBase):
             data = self.sigma_clip(data, axis=axis, masked=False)
         elif isinstance(data, np.ma.MaskedArray):
             # convert to ndarray with masked values replaced by NaN
-            data = data.filled(np.nan)
+            data = data.astype(float).filled(np.nan)
 
         # ignore RuntimeWarning where axis is all NaN
         with warnings.catch_warnings():
@@ -623,7 +623,7 @@ class MADStdBackgroundRMS(BackgroundRMSBase):
             data = self.sigma_clip(data, axis=axis, masked=False)
         elif isinstance(data, np.ma.MaskedArray):
             # convert to ndarray with masked values replaced by NaN
-            data = data.filled(np.nan)
+            data = data.astype(float).filled(np.nan)
 
         # ignore RuntimeWarning where axis is all NaN
         with warnings.catch_warnings():
@@ -694,7 +694,7 @@ class BiweightScaleBackgroundRMS(BackgroundRMSBase):
             data = self.sigma_clip(data, axis=axis, masked=False)
         elif isinstance(data, np.ma.MaskedArray):
             # convert to ndarray with masked values replaced by NaN
-            data = data.filled(np.nan)
+            data = data.astype(float).filled(np.nan)
 
         # ignore RuntimeWarning where axis is all NaN
         with warnings.catch_warnings():
